@@ -141,6 +141,13 @@ Proof.
     + intros [n H]. apply ImmSet_nil in H. destruct H.
 Qed.
 
+Lemma Z_nouse st st' us : same_set st st' -> (forall n, ~ ImmSet n us) -> Z st st' us.
+Proof.
+  intros Hs Hn. destruct (Z_same _ _ Hs) as (A1 & A2 & A3). split; [|split]; auto.
+  - intros m H. apply A1 in H. destruct H as [H|H]; auto. apply ImmSet_nil in H. destruct H.
+  - intros HP. destruct (A3 HP) as [P _]. split; auto. intros [m H]. exfalso. apply (Hn m H).
+Qed.
+
 Lemma Z_refl st : Z st st [].
 Proof. apply Z_same. split; [tauto|reflexivity]. Qed.
 
@@ -172,6 +179,11 @@ Qed.
 
 Lemma same_set_eq st st' : errs st' = errs st -> premem st' = premem st -> same_set st st'.
 Proof. intros E P. split; auto. intros n. unfold setr. rewrite E. tauto. Qed.
+
+Lemma same_set_errorf_ne st r m : r <> RSetUnsupported -> same_set st (errorf st r m).
+Proof.
+  intros Hr. split; [|reflexivity]. intros n. rewrite setr_errorf. split; auto. intros [H|[H _]]; auto. congruence.
+Qed.
 
 Lemma same_set_errorf st r m : untracked r = true -> same_set st (errorf st r m).
 Proof.
@@ -391,18 +403,12 @@ Proof.
     + apply same_rep_useToplevel.
     + apply same_rep_errs. reflexivity.
   - unfold use_, flof, top, fl_of. destruct (env st) eqn:Ee.
-    + rewrite andb_false_r. destruct (Z_same st (add_use st (container st) {| u_name := x; u_node := n; u_env := env st |}))
-        as (A1 & A2 & A3); [apply same_set_eq; reflexivity|]. rewrite Ee in *.
-      split; [|split]; auto.
-      * intros m H. apply A1 in H. destruct H as [H|H]; auto. apply ImmSet_nil in H. destruct H.
-      * intros HP. destruct (A3 HP) as [P _]. split; auto. intros (m & u & g & [<-|[]] & _ & H & _). discriminate.
+    + rewrite andb_false_r. apply Z_nouse; [apply same_set_eq; reflexivity|].
+      intros m (u & g & [<-|[]] & _ & H & _). discriminate.
     + rewrite andb_true_r. destruct (o_global_reassign opts) eqn:Eg.
       * apply Z_useToplevel. rewrite smem_app. apply orb_comm.
-      * destruct (Z_same st (add_use st (container st) {| u_name := x; u_node := n; u_env := env st |}))
-          as (A1 & A2 & A3); [apply same_set_eq; reflexivity|]. rewrite Ee in *.
-        split; [|split]; auto.
-        -- intros m H. apply A1 in H. destruct H as [H|H]; auto. apply ImmSet_nil in H. destruct H.
-        -- intros HP. destruct (A3 HP) as [P _]. split; auto. intros (m & u & g & [<-|[]] & _ & H & _). discriminate.
+      * apply Z_nouse; [apply same_set_eq; reflexivity|].
+        intros m (u & g & [<-|[]] & _ & H & _). discriminate.
 Qed.
 
 Lemma errs_bindLocal st n x : errs (snd (bindLocal st n x)) = errs st.
@@ -424,7 +430,7 @@ Lemma same_set_bind st n x : same_set st (snd (bind opts st n x)).
 Proof.
   unfold bind. destruct (env st); [apply same_set_bindLocal|]. simpl.
   destruct (mem x (fileb st) || mem x (globals st)); simpl.
-  - destruct (negb (o_global_reassign opts)); [apply same_set_errorf; reflexivity|split; [tauto|reflexivity]].
+  - destruct (negb (o_global_reassign opts)); [apply same_set_errorf_ne; discriminate|split; [tauto|reflexivity]].
   - apply same_set_eq; reflexivity.
 Qed.
 
@@ -532,4 +538,3 @@ Qed.
 
 End D2.
 
-Lemma K_weak_dummy : True. Proof. exact I. Qed.
